@@ -304,3 +304,44 @@ def loops_to_comprehensions(tree: ast.Module) -> int:
     if n_rw:
         ast.fix_missing_locations(tree)
     return n_rw
+
+
+def membership_set_aliases(tree: ast.Module) -> int:
+    """`ext_set = set(ext)` made once so that `n in ext_set` is cheap: for membership the set is its source.  Where a local is
+    bound exactly once to `set(X)` / `frozenset(X)` of a plain name X that the function neither rebinds nor mutates, and the set
+    itself is never mutated, `e in S` / `e not in S` is read as `e in X` / `e not in X`."""
+    MUT = {'add', 'update', 'discard', 'remove', 'pop', 'clear', 'append', 'extend', 'insert', 'sort', 'reverse', 'difference_update',
+           'intersection_update', 'symmetric_difference_update', 'setdefault', 'popitem'}
+    n_rw = 0
+    for fn in [x for x in ast.walk(tree) if isinstance(x, FUNC)]:
+        stores: Dict[str, int] = {}
+        mutated: Set[str] = set()
+        params = {a.arg for a in ast.walk(fn.args) if isinstance(a, ast.arg)}
+        for n in ast.walk(fn):
+            if isinstance(n, ast.Name) and isinstance(n.ctx, (ast.Store, ast.Del)):
+                stores[n.id] = stores.get(n.id, 0) + 1
+            if isinstance(n, ast.Call) and isinstance(n.func, ast.Attribute) and n.func.attr in MUT and isinstance(n.func.value, ast.Name):
+                mutated.add(n.func.value.id)
+            if isinstance(n, ast.Subscript) and isinstance(n.ctx, (ast.Store, ast.Del)) and isinstance(n.value, ast.Name):
+                mutated.add(n.value.id)
+            if isinstance(n, ast.AugAssign) and isinstance(n.target, ast.Name):
+                mutated.add(n.target.id)
+        alias: Dict[str, str] = {}
+        for st in ast.walk(fn):
+            if isinstance(st, (ast.Assign, ast.AnnAssign)) and st.value is not None:
+                t = st.targets[0] if isinstance(st, ast.Assign) and len(st.targets) == 1 else st.target if isinstance(st, ast.AnnAssign) else None
+                v = st.value
+                if isinstance(t, ast.Name) and isinstance(v, ast.Call) and isinstance(v.func, ast.Name) and v.func.id in ('set', 'frozenset') \
+                        and len(v.args) == 1 and not v.keywords and isinstance(v.args[0], ast.Name):
+                    s_, x_ = t.id, v.args[0].id
+                    if s_ != x_ and stores.get(s_) == 1 and s_ not in params and s_ not in mutated and x_ not in mutated \
+                            and (stores.get(x_, 0) == 0 or (x_ not in params and stores.get(x_) == 1)):
+                        alias[s_] = x_
+        if not alias:
+            continue
+        for c in [x for x in ast.walk(fn) if isinstance(x, ast.Compare)]:
+            for i, (op, cmp_) in enumerate(zip(c.ops, c.comparators)):
+                if isinstance(op, (ast.In, ast.NotIn)) and isinstance(cmp_, ast.Name) and cmp_.id in alias:
+                    c.comparators[i] = ast.copy_location(ast.Name(id=alias[cmp_.id], ctx=ast.Load()), cmp_)
+                    n_rw += 1
+    return n_rw
